@@ -149,6 +149,41 @@ def sec_tables(rep):
                 return out
 
             rep.check(f"C05/sector_mapping/post/pto={pto}/nf={nf}", case, sy)
+    # the same tables on 2x2 formal operators: "- beta0 * identity" is the identity of the
+    # interpolation space (diagonal entries only), products and sums act entry by entry
+    for pto in (2, 3):
+        for nf in (3, 5):
+            rep.cases += 1
+
+            def case2(sy, pto=pto, nf=nf):
+                beta = BetaStub(sy)
+                with rebind(*binds(sy, beta)):
+                    m = sv.ScaleVariations(order=pto, interpolator=None, activate_ren=True, activate_fact=True)
+                    for table in split.raw_labels:
+                        for lab in table:
+                            a = np.empty((2, 2), dtype=object)
+                            for i in range(2):
+                                for j in range(2):
+                                    a[i, j] = sy.U("M", lab, i, j)
+                            m.operators[(lab, nf)] = a
+                    smap = split.sector_mapping(pto, m.operators, nf)
+                out = []
+                for i in range(2):
+                    for j in range(2):
+                        M = lambda lab: sy.U("M", lab, i, j)
+                        d = sy.b0 if i == j else 0
+                        e211 = {(nsp, 0): M("P_qq_0") - d, (nsm, 0): M("P_qq_0") - d, (nsv, 0): M("P_qq_0") - d, (100, 100): M("P_qq_0") - d, (100, 21): M("P_qg_0"), (21, 100): M("P_gq_0"), (21, 21): M("P_gg_0") - d}
+                        ns2 = (M("P_qq_0^2") - sy.b0 * M("P_qq_0")) / 2
+                        e220 = {(nsp, 0): ns2, (nsm, 0): ns2, (nsv, 0): ns2, (100, 100): (M("P_qq_0^2") + M("P_qg_0P_gq_0") - sy.b0 * M("P_qq_0")) / 2, (100, 21): (M("P_qq_0P_qg_0") + M("P_qg_0P_gg_0") - sy.b0 * M("P_qg_0")) / 2, (21, 100): 0, (21, 21): 0}
+                        e110 = {(nsp, 0): M("P_qq_0"), (100, 100): M("P_qq_0"), (100, 21): M("P_qg_0"), (21, 100): 0, (21, 21): 0}
+                        for key, exp in (((1, 1, 0), e110), ((2, 1, 1), e211), ((2, 2, 0), e220)):
+                            for s_, v in exp.items():
+                                got = smap[key][s_]
+                                out.append((f"{key}/{s_}/shape", np.shape(got), (2, 2)))
+                                out.append((f"{key}/{s_}[{i},{j}]", got[i, j], v))
+                return out
+
+            rep.check(f"C05/sector_mapping/post(2x2 operators, entry by entry)/pto={pto}/nf={nf}", case2, sy)
     # history: ONE manager asked for a sequence of flavour numbers answers each with the
     # beta coefficients and operators of that flavour number (no stale memo)
     class BetaNf:
